@@ -257,7 +257,7 @@ def build(u):
          rules=[make_r_sub("R-into", r"v\.into\(\)", "T::from(v)"), make_r_sub("R-generic", r"fn from\(", "fn from<T: Laws>(")],
          spec="ensures\n    // an absent optional becomes the NULL of T's own variant, a present one T's conversion\n    r == (match x { Some(v) => T::from_spec(v), None => T::null_spec() }),")
     u.fn(F, "impl<T> ValueType for Option<T> where T: ValueType + Nullable,", "try_from", rename="opt_try_from", ret="r", props=P12, key="ValueType for Option<T>::try_from", vpath="opt_try_from",
-         rules=[make_r_sub("R-eq", r"v == T::null\(\)", "veq(&v, &T::null())"), make_r_sub("R-generic", r"fn try_from\(v: Value\) -> Result<Self, ValueTypeErr>", "fn try_from<T: Laws>(v: Value) -> Result<Option<T>, ValueTypeErr>")],
+         rules=[make_r_sub("R-eq", r"v (==|!=) T::null\(\)", lambda m: ("" if m.group(1) == "==" else "!") + "veq(&v, &T::null())"), make_r_sub("R-generic", r"fn try_from\(v: Value\) -> Result<Self, ValueTypeErr>", "fn try_from<T: Laws>(v: Value) -> Result<Option<T>, ValueTypeErr>")],
          spec="""ensures
     // exactly the NULL of T's variant extracts as absent
     v == T::null_spec() ==> r == Ok::<Option<T>, ValueTypeErr>(None),
@@ -281,11 +281,11 @@ def build(u):
     # ---- C18: Value::eq / Value::hash and their helpers (feature hashable-value) -------------------------------------------------
     u.spec(EQ_SHIMS, "value::eq-hash-shims", props=P18)
     H = "mod hashable_value"
-    r_peq = make_r_sub("R-eq", r"\bl == r\b", "vpeq(l, r)")
+    r_peq = make_r_sub("R-eq", r"\b([a-z_]+) == ([a-z_]+)\b", r"vpeq(\1, \2)")
     u.emit("impl Value {\n")
     # Option<T>::try_from decides `absent` with Value's ==: under hashable-value that is this eq, so C12 rests on it too
     u.fn(F, "impl PartialEq for Value", "eq", ret="r", props=P18 + P12, key="PartialEq for Value::eq", vpath="Value::eq",
-         rules=[r_path, r_peq, make_r_sub("R-eq", r"ty_l == ty_r && values_l == values_r", "vpeq(ty_l, ty_r) && vpeq(values_l, values_r)")],
+         rules=[r_path, r_peq],
          spec=[("ensures\n    // equal iff same variant and equal payloads (eqv is generated from the enum: a variant without an arm here fails)\n    r == eqv(*self, *other),", P18 + P12)])
     u.fn(F, "impl Hash for Value", "hash", props=P18 + ["MODEL"], key="Hash for Value::hash", vpath="Value::hash",
          rules=[r_path, make_r_sub("R-generic", r"fn hash<H: std::hash::Hasher>\(&self, state: &mut H\)", "fn hash(&self, state: &mut VHasher)"),
